@@ -32,6 +32,9 @@ type scanWireCase struct {
 func scanWireRun(c scanWireCase) Outcome {
 	var o Outcome
 	res := inBubble(theT, func() { o = scanWireInBubble(c) })
+	if o, stuck := stuckVerdict(res); stuck {
+		return o
+	}
 	if res.Panic != "" {
 		return viol("panic@"+topFrame(res.Stack), "%s\n%s", res.Panic, res.Stack)
 	}
@@ -75,6 +78,21 @@ func scanWireInBubble(c scanWireCase) (out Outcome) {
 	var extra []func(hrpc.Call) error
 	if c.End.RenewMS > 0 {
 		extra = append(extra, hrpc.RenewInterval(time.Duration(c.End.RenewMS)*time.Millisecond))
+	}
+	if spec.Twice && c.End.Kind == "exhaust" {
+		// a first, complete run of the same scan on the same client (same cached regions)
+		call0, err := newScanCall(context.Background(), spec)
+		if err != nil {
+			return viol("harness", "NewScanRange: %v", err)
+		}
+		sc0 := client.Scan(call0)
+		for i := 0; i < len(spec.Rows)*8+20; i++ {
+			if _, err := sc0.Next(); err != nil {
+				break
+			}
+		}
+		sc0.Close()
+		synctest.Wait()
 	}
 	call, err := newScanCall(ctx, spec, extra...)
 	if err != nil {
@@ -253,7 +271,7 @@ func scanWireInBubble(c scanWireCase) (out Outcome) {
 	if sig, msg := comparePrefix(acc.rows, want, exact, partialWithErr || (spec.Partials && !exact) || (c.End.Kind == "close" && !exact)); sig != "" {
 		return viol(sig, "%s (start=%q stop=%q reversed=%v bounds=%q)", msg, spec.Start, spec.Stop, spec.Reversed, spec.Bounds)
 	}
-	if open := ss.OpenScanners(); len(open) > 0 && c.SilentAfter == 0 {
+	if open := ss.OpenScanners(); len(open) > 0 && c.SilentAfter == 0 && !(spec.Twice && c.End.Kind == "exhaust") {
 		return viol("scanner-leak", "region scanners %v are still open at the servers after the scan ended (%s)", open, c.End.Kind)
 	}
 	n := ss.NumScanners()
